@@ -22,9 +22,9 @@ from harness import common
 from harness import c02_impl as I
 
 GEN_MODULES = ['layout', 'llh']
-MODEL_TARGETS = ['model/M_Layout.vo', 'model/M_Llh.vo', 'model/M_LlhGrad.vo']
+MODEL_TARGETS = ['model/M_Layout.vo', 'model/M_Llh.vo', 'model/M_LlhGrad.vo', 'model/M_LlhE2E.vo']
 PROOF_TARGETS = ['proofs/P_Layout.vo', 'proofs/P_LayoutDeriv.vo', 'proofs/P_LlhDeriv.vo', 'proofs/P_WeightsDeriv.vo',
-                 'proofs/P_LlhGrad.vo', 'proofs/P_LlhStack.vo', 'proofs/P_LlhPipeGrad.vo']
+                 'proofs/P_LlhGrad.vo', 'proofs/P_LlhStack.vo', 'proofs/P_LlhPipeGrad.vo', 'proofs/P_LlhE2E.vo']
 LEVEL = 'proof'
 RULE = ('layouts: ns + up to 3 further global parameters x {fixed,floating} x declaration orders x mappings '
         '(shared / per-source alias / subset of sources / unused local name) over 1..3 sources in 1..2 hypothesis '
@@ -77,6 +77,8 @@ def gen_layout(rng, n_src, k_other, needed, fixed_pattern, order, ns_fixed=False
     (global names 5..) feeding the local names in `needed` for every source"""
     others = [{'name': 5 + i, 'fixed': fixed_pattern[i], 'val': gen_value(rng, 'grid' if on_grid and i == 0 else 'off'),
                'names': [None] * n_src} for i in range(k_other)]
+    if on_grid and others:
+        others[0]['at_bound'] = True
     for s in range(n_src):
         inj = rng.sample(range(k_other), len(needed)) if k_other >= len(needed) else []
         if assign is not None:
@@ -441,6 +443,17 @@ def richardson(f, x, h):
     return (4 * d2 - d1) / 3
 
 
+def richardson_right(f, x, h):
+    """right-hand derivative (one-sided, inward from a lower bound / at a kink of Linear1D)"""
+    def d(hh):
+        return (-3.0 * f(x) + 4.0 * f(x + hh) - f(x + 2.0 * hh)) / (2.0 * hh)
+    return (4.0 * d(h / 2) - d(h)) / 3.0
+
+
+def on_kink(case, d, x):
+    return case['on_grid'] and d['name'] != 0 and abs((x / 0.25) - round(x / 0.25)) < 1e-9
+
+
 def fd_predicates(ctx, case, W, impl_layout):
     """finite differences of the implementation's own value vs the returned gradients"""
     vec = list(case['vec'])
@@ -485,15 +498,17 @@ def fd_predicates(ctx, case, W, impl_layout):
         h = 2e-4 if d['name'] != 0 else 1e-3
         if case['regime'] in ('taylor', 'mixed') and d['name'] == 0:
             h = 1e-5
-        if case['on_grid'] and d['name'] != 0 and abs((vec[i] / 0.25) - round(vec[i] / 0.25)) < 1e-9:
-            ctx.count('fd_skipped_on_kink')
-            continue
 
         def fval(x, i=i):
             v = list(vec)
             v[i] = x
             return I.evaluate_multi(W, v)[0]
-        fd = richardson(fval, vec[i], h)
+        if on_kink(case, d, vec[i]):
+            # the parameter sits on a grid point AND on its lower bound: the code returns the right-hand slope
+            fd = richardson_right(fval, vec[i], 1e-3)
+            ctx.count('fd_checks_one_sided_at_grid_point_and_bound')
+        else:
+            fd = richardson(fval, vec[i], h)
         scale = max(abs(fd), abs(grads[i]), 1e-3 * (abs(val) + 1.0))
         ctx.count('fd_checks')
         if abs(fd - grads[i]) > 2e-5 * scale + 1e-8:
@@ -507,15 +522,13 @@ def fd_predicates(ctx, case, W, impl_layout):
         (v1, g1) = I.evaluate_single(W, j, vec)
         for i in range(nfl):
             d = fl[i]
-            if case['on_grid'] and d['name'] != 0:
-                continue
             h = 2e-4 if d['name'] != 0 else (1e-5 if case['regime'] in ('taylor', 'mixed') else 1e-3)
 
             def f1(x, i=i):
                 v = list(vec)
                 v[i] = x
                 return I.evaluate_single(W, j, v)[0]
-            fd = richardson(f1, vec[i], h)
+            fd = richardson_right(f1, vec[i], 1e-3) if on_kink(case, d, vec[i]) else richardson(f1, vec[i], h)
             scale = max(abs(fd), abs(g1[i]), 1e-3 * (abs(v1) + 1.0))
             ctx.count('fd_checks_single')
             if abs(fd - g1[i]) > 2e-5 * scale + 1e-8:
